@@ -1124,6 +1124,64 @@ def run_resplit(R, r, n):
             R.fail("C10:stale-kept-view:write", f"{sx[:200]}: a write through a view of {pstr(path)} obtained before its replacement raises {type(ex).__name__}", ctx)
 
 
+def run_shrunk_room(R, r, n):
+    """C11 through a handle obtained EARLIER: an array of dynamically sized items is updated as a whole with smaller items (it keeps
+    its size, item 0 keeps its offset but gets LESS room); an update of item 0 - through a handle taken before - with a value that
+    needs more than the room item 0 has NOW must be refused and change nothing (the neighbouring item starts right behind)."""
+    xo = common.import_xobjects()
+    for it_ in range(n + 2):
+        cache = {}
+        kind = ["strings", "arrays"][it_] if it_ < 2 else r.choice(["strings", "arrays"])
+        k = r.choice([2, 2, 3])
+        if kind == "strings":
+            X = ("string",)
+            big = ["L" * r.choice([17, 40, 41]) for _ in range(k)]
+            small = ["s" * r.choice([0, 1, 7]) for _ in range(k)]
+        else:
+            X = ("array", ("scalar", r.choice([2, 0, 4])), [None], [0])
+            big = [("ARR", [m], [r.randint(1, 9) for _ in range(m)]) for m in (r.choice([3, 5, 8]) for _ in range(k))]
+            small = [("ARR", [m], [r.randint(1, 9) for _ in range(m)]) for m in (r.choice([0, 1]) for _ in range(k))]
+        dyn_inner = it_ < 2 or r.random() < 0.5
+        inner = ("array", X, [None] if dyn_inner else [k], [0])
+        m = r.choice([2, 3])
+        outer = ("array", inner, [None] if r.random() < 0.5 else [m], [0])
+        other = ("ARR", [k], small)
+        d0 = ("ARR", [m], [("ARR", [k], big)] + [other] * (m - 1))
+        d1 = ("ARR", [m], [("ARR", [k], small)] + [other] * (m - 1))
+        sx = T.sexp(outer)
+        ctx = {"component": "lay", "type": sx, "value": repr(d0)[:600], "assigned": repr(d1)[:300], "op": "shrunk-room"}
+        try:
+            cls = T.build(outer, cache)
+            buf = xo.ContextCpu().new_buffer(r.choice([64, 4096]))
+            obj = cls(vsexp(outer, d0, cache, "py")[1], _buffer=buf)
+            nb = xo.String("live neighbour", _buffer=buf)
+            h0 = obj[0]
+            obj._update(vsexp(outer, d1, cache, "py")[1])
+            want = expect_str(outer, d1, cache)
+            if deep_str(outer, obj, cache) != want:
+                continue                       # (the whole update itself is the business of the other streams)
+        except Exception as ex:
+            R.fail("C10:resplit-raises", f"{sx[:200]}: a whole update with smaller items raises {type(ex).__name__}: {str(ex)[:120]}", ctx)
+            continue
+        img0 = image(buf)
+        R.tags["shrunk-room." + kind] += 1
+        raised = None
+        try:
+            h0._update(vsexp(inner, ("ARR", [k], big), cache, "py")[1])
+        except Exception as ex:
+            raised = type(ex).__name__
+        if image(buf) != img0:
+            try:
+                now = deep_str(outer, cls._from_buffer(buf, int(obj._offset)), cache)
+            except Exception as ex:
+                now = "unreadable: " + type(ex).__name__
+            R.fail("C11:overrun", f"{sx[:200]}: x = obj[0]; obj._update(smaller items); x._update(the first, larger value): item 0 has room for the "
+                   f"smaller value only, yet the buffer changed (raised: {raised}); the array reads {now[:160]}, it held {want[:160]}; "
+                   f"neighbour reads {nb.to_str()[:20]!r}", ctx)
+        elif raised is None:
+            R.fail("C11:misfit-accepted", f"{sx[:200]}: x = obj[0]; obj._update(smaller items); x._update(the first, larger value) was accepted", ctx)
+
+
 def run_all(tier, seed, refs=False, n=None, mutate=True):
     r = random.Random(seed * 1000003 + (77 if refs else 13))
     R = Run()
@@ -1132,6 +1190,7 @@ def run_all(tier, seed, refs=False, n=None, mutate=True):
         run_corpus(R)
         if mutate:
             run_resplit(R, random.Random(seed * 7919 + 5), max(6, n // 20))
+            run_shrunk_room(R, random.Random(seed * 7919 + 6), max(4, n // 40))
     for _ in range(n):
         run_case(R, r, refs, mutate=mutate)
     got = common.run_driver_sharded("lay", split_cases(R), nproc=8 if n > 400 else 2)
